@@ -421,6 +421,11 @@ func syncRule(c *eng.Ctx) {
 		c.Undecided("no range loop over fq.consumerGroups found in Sync")
 	}
 	h := next.Block()
+	if lf := next.Parent(); lf != f {
+		// the minimum is computed in a helper: the loop is analysed there (its lock context comes from the call site)
+		facts = p.MustFacts(lf)
+		arg = eng.ThroughHelper(arg)
+	}
 	ph, ok := arg.(*ssa.Phi)
 	if !ok || ph.Block() != h {
 		c.Undecided("the argument of SetAcknowledgedSeq is not the loop-carried minimum (got %s)", p.Desc(arg))
@@ -470,7 +475,7 @@ func syncRule(c *eng.Ctx) {
 				c.Undecided("unexpected loop header shape")
 			}
 		}
-		_, skip := eng.PathExists(eng.PathQuery{Fn: f, After: body.Instrs[0],
+		_, skip := eng.PathExists(eng.PathQuery{Fn: next.Parent(), After: body.Instrs[0],
 			Target:  func(in ssa.Instruction) bool { return in == ssa.Instruction(next) },
 			Blocked: func(in ssa.Instruction) bool { return in == ssa.Instruction(ts) }})
 		// body.Instrs[0] itself could be the read
@@ -484,8 +489,8 @@ func syncRule(c *eng.Ctx) {
 	if init == nil || nBack == 0 {
 		c.Undecided("loop shape not recognised (init %v, back edges %d)", init, nBack)
 	}
-	c.Check(strings.HasSuffix(p.Desc(init), "AppendedSeq()"), "starts-at-appended", call, f,
-		"the running minimum starts from the queue's appended position", "starts from "+p.Desc(init))
+	c.Check(strings.HasSuffix(p.DescUp(init), "AppendedSeq()"), "starts-at-appended", call, f,
+		"the running minimum starts from the queue's appended position", "starts from "+p.DescUp(init))
 	// the map ranged over is read under the lock
 	c.Check(ls.At(next).HasField(foMu, false), "range-locked", next, f, "the group map is iterated under lock4map", "held: "+ls.At(next).String())
 }
